@@ -390,6 +390,7 @@ def ntfsOf (c : Cfg) (s : State) : List Ev → List Ntfn
 /-- the filter-header writer's contract: a write that succeeds starts right above the filter tip -/
 def alignedEv (s : State) : Ev → Prop
   | .cfWrite stop n true => ∀ endH, idxOf s.log stop = some endH → n ≠ 0 → n - 1 ≤ endH → endH = s.fst + n
+  | .importReset _ nf => nf = 0      -- imported filter headers are not announced: not a moment between events
   | _ => True
 
 def alignedRun (c : Cfg) (s : State) : List Ev → Prop
@@ -446,6 +447,33 @@ theorem step_trace (c : Cfg) (s : State) (e : Ev) (hf : FInv s) (ha : alignedEv 
           · rfl
           · split <;> rfl
     simp only [step, hn]; exact ⟨rfl, hf⟩
+  | headersFailWrite p hs =>
+    simp only [step, handleHeadersFailWrite]
+    split
+    · exact ⟨rfl, ⟨hf.F, hf.G⟩⟩
+    · exact C19_replay_headers c s p hs hf
+  | importReset blocks nf =>
+    -- an import appends blocks above the committed ones and may commit further filter headers
+    -- WITHOUT announcing them: the subscriber's view is no longer the committed chain unless no
+    -- filter header was imported (`alignedEv` demands that)
+    simp only [step, importReset]
+    have hnf : nf = 0 := ha
+    subst hnf
+    have hF := hf.F
+    have hfst : (if s.fst + 0 ≤ tipHeight (if chainOk c s.log blocks = true then s.log ++ blocks else s.log)
+        then s.fst + 0 else s.fst) = s.fst := by
+      generalize tipHeight (if chainOk c s.log blocks = true then s.log ++ blocks else s.log) = T
+      by_cases h : s.fst + 0 ≤ T <;> simp [h]
+    simp only [hfst]
+    refine ⟨?_, ⟨?_, rfl⟩⟩
+    · simp only [committedS, replay, List.foldl_nil]
+      split
+      · exact (committedOf_append _ _ _ hF).symm
+      · rfl
+    · show s.fst < (if chainOk c s.log blocks = true then s.log ++ blocks else s.log).length
+      split
+      · simp; omega
+      · exact hF
 
 /-- **Events after any moment, every event list**: replaying everything the block manager emits
 from a moment on, on the chain committed at that moment, gives the committed chain now. -/
@@ -486,6 +514,21 @@ theorem finv_step (c : Cfg) (s : State) (e : Ev) (hf : FInv s) : FInv (step c s 
   | inv p id => exact (step_trace c s (.inv p id) hf trivial).2
   | headers p hs => exact (step_trace c s (.headers p hs) hf trivial).2
   | backlog k => exact (step_trace c s (.backlog k) hf trivial).2
+  | headersFailWrite p hs => exact (step_trace c s (.headersFailWrite p hs) hf trivial).2
+  | importReset blocks nf =>
+    simp only [step, importReset]
+    refine ⟨?_, rfl⟩
+    show (if s.fst + nf ≤ tipHeight (if chainOk c s.log blocks = true then s.log ++ blocks else s.log) then s.fst + nf else s.fst)
+      < (if chainOk c s.log blocks = true then s.log ++ blocks else s.log).length
+    have hF := hf.F
+    have hlen : s.log.length ≤ (if chainOk c s.log blocks = true then s.log ++ blocks else s.log).length := by
+      split
+      · simp
+      · exact Nat.le_refl _
+    generalize (if chainOk c s.log blocks = true then s.log ++ blocks else s.log) = L at hlen ⊢
+    by_cases h : s.fst + nf ≤ tipHeight L
+    · rw [if_pos h]; simp only [tipHeight] at h; omega
+    · rw [if_neg h]; omega
 
 theorem finv_init (c : Cfg) (peers : List Peer) : FInv (init c peers) := ⟨by simp [init], rfl⟩
 
